@@ -120,6 +120,85 @@ func TestRecordC08(t *testing.T) {
 	installFailpoint()
 	seed := abs.Seed()
 	n := abs.EnvInt("VERIF_TRACES", 120)
+	// systematic part: every schedule of VERIF_SYSLEN driver actions on one lifecycler next to a bystander
+	sysLen := abs.EnvInt("VERIF_SYSLEN", 3)
+	alphabet := []string{"next", "pending", "ready", "sleep", "ro", "restart"}
+	total := 1
+	for k := 0; k < sysLen; k++ {
+		total *= len(alphabet)
+	}
+	for code := 0; code < total && res.Fatal == ""; code++ {
+		kind := []string{"classic", "classic", "basic"}[code%3]
+		c := lcCfg{Kind: kind, Join: 2, Obs: 1, Hb: 1, Unreg: code%2 == 0, File: code%4 < 2, Health: code%5 == 0, Regst: "JOINING", Keep: code%2 != 0}
+		if kind == "basic" {
+			c.Join, c.Obs, c.Health = 0, code%2, false
+		}
+		label := fmt.Sprintf("c08/sys/%d", code)
+		w := oneTrace(t, 2, func(w *world) {
+			_ = w.start(2, bystander(), seed+7, 0, "")
+			if err := w.start(1, c, seed+int64(code), 0, ""); err != nil {
+				w.fatal = err.Error()
+			}
+			x := code
+			for k := 0; k < sysLen && w.fatal == ""; k++ {
+				a := alphabet[x%len(alphabet)]
+				x /= len(alphabet)
+				label += " " + a
+				switch {
+				case a == "sleep":
+					w.sleep(1)
+				case a == "restart":
+					if w.alive(1) && !w.stopping(1) {
+						w.stop(1)
+					}
+					if w.idle(1) {
+						if err := w.start(1, c, seed+int64(code)+int64(k)+1, 0, ""); err != nil {
+							w.fatal = err.Error()
+						}
+					}
+				case !w.running(1):
+				case a == "next":
+					cur := w.publishedOr(1, "PENDING")
+					if w.inc[1].classic != nil {
+						cur = w.inc[1].classic.GetState().String()
+					}
+					w.request(1, "cs", nextOf(cur))
+				case a == "pending":
+					if w.inc[1].classic != nil { // mostly a disallowed edge: must be refused
+						w.request(1, "cs", "PENDING")
+					}
+				case a == "ready":
+					if w.inc[1].classic != nil {
+						w.checkReady(1)
+					}
+				case a == "ro":
+					ro := false
+					if w.inc[1].classic != nil {
+						ro, _ = w.inc[1].classic.GetReadOnlyState()
+					} else {
+						ro, _ = w.inc[1].basic.GetReadOnlyState()
+					}
+					w.request(1, "ro", fmt.Sprint(!ro))
+				}
+			}
+			if w.alive(1) && w.inc[1].classic != nil {
+				w.checkReady(1)
+			}
+			w.sleep(2)
+			if w.alive(1) && w.inc[1].classic != nil {
+				w.checkReady(1)
+			}
+			w.finish("end")
+		})
+		if w.fatal != "" {
+			res.Fatal = label + ": " + w.fatal
+			break
+		}
+		if err := sink.add(w, label); err != nil {
+			res.Fatal = err.Error()
+		}
+	}
+	res.AddExtra("systematic_schedules", total)
 	for k := 0; k < n && res.Fatal == ""; k++ {
 		r := rand.New(rand.NewSource(seed*1000003 + int64(k)))
 		nt := 2
@@ -204,6 +283,32 @@ func TestRecordC09(t *testing.T) {
 	}
 	res.AddExtra("crash_points", points)
 	res.AddExtra("crash_points_unreached", unreached)
+	// wipe during LEAVING: the stopping lifecycler's heartbeat re-registers it as LEAVING with its tokens
+	for _, unreg := range []bool{false, true} {
+		c := lcCfg{Kind: "classic", Join: 0, Obs: 0, Hb: 1, Unreg: unreg, File: true, Fsleep: 3, Regst: "ACTIVE", Keep: !unreg}
+		label := fmt.Sprintf("c09/wipe-during-leaving unreg=%v", unreg)
+		w := oneTrace(t, 2, func(w *world) {
+			if err := w.start(1, c, seed, 0, ""); err != nil {
+				w.fatal = err.Error()
+				return
+			}
+			_ = w.start(2, bystander(), seed+1, 0, "")
+			w.sleep(2)
+			w.stop(1)
+			w.sleep(1)
+			w.wipe()
+			w.sleep(4)
+			w.finish("settled")
+		})
+		if w.fatal != "" {
+			res.Fatal = label + ": " + w.fatal
+			return
+		}
+		if err := sink.add(w, label); err != nil {
+			res.Fatal = err.Error()
+			return
+		}
+	}
 	// store faults: reject windows and wipes at seeded places of free-running schedules
 	n := abs.EnvInt("VERIF_FAULT_TRACES", 40)
 	for k := 0; k < n && res.Fatal == ""; k++ {
@@ -236,7 +341,7 @@ func faultSchedule(w *world, r *rand.Rand, o schedOpts) error {
 			kind = "basic"
 		}
 		c := randCfg(r, kind)
-		c.Regst, c.Fsleep = "ACTIVE", 0
+		c.Regst = "ACTIVE" // (a final sleep > 0 keeps the instance LEAVING for a while: wipes during LEAVING)
 		if c.Hb == 0 {
 			c.Hb = 1
 		}
